@@ -177,6 +177,8 @@ ROUND6 = {
     "C03": "Module lifetime: two NTT120 modules of different N filled / released by the real fill_module_precomp / delete_module_info (table functions replaced by stand-ins of the "
            "same object structure) - the tables of a live module stay valid and unchanged, nothing is freed twice or leaked.",
     "C04": "The native whole-transform oracle of the level induction also runs butterfly-shaped extreme patterns for every level.",
+    "C05": "The limb loop additionally for EVERY ring dimension N = 2^0..2^16 as a solver variable: projection onto one symbolic coefficient column, the elementwise primitive "
+           "replaced by its uninterpreted step on that column's cells, which are tracked from the pointer offsets of each call (no buffer is dereferenced), sizes <= 4.",
     "C11": "Also here: the inverse DFT written over its own input with more output rows than input rows (no dependence on prior output contents), and the NTT120 module "
            "fill/delete lifetime obligations.",
     "C12": "SSA write set of the real reim FFT/iFFT drivers (reference and AVX2) on both sides of the m = 2048 depth-first switch (m = 64, 2048, 4096, 8192; pass kernels "
